@@ -569,6 +569,8 @@ def check_interp_case(ctx, case, results, model_out):
                       'conv': conv, 'impl': toks}
         ctx.case(sig if nontrivial else None, sample)
         ctx.hit('conv/{}/{}'.format(case['api'], conv))
+        if conv.startswith('mesh') and mesh_lens(case) and not mesh_input_ok(mesh_lens(case)):
+            ctx.hit('mesh/one-point-first-axis')
         rc = dict(desc_of(case), conv=conv)
         if status != 'ok':
             exc = status.split(':')[1]
@@ -608,11 +610,7 @@ def check_interp_case(ctx, case, results, model_out):
         if mo is None:
             continue
         if any(not a.startswith('ok r=') for a in mo):
-            bad = [a for a in mo if not a.startswith('ok r=')][0]
-            if not (bad == 'err:mesh-input' and status.startswith('err:ValueError:could not broadcast')):
-                ctx.disagree(rc, status, bad)
-            else:
-                ctx.hit('mesh-input/rejected')
+            ctx.disagree(rc, status, [a for a in mo if not a.startswith('ok r=')][0])
             continue
         mt = []
         for a in mo:
@@ -951,11 +949,13 @@ def run_dtype_table(ctx, with_model=True):
         else:
             vals = ['3/8', '-5/8', '7/4', '11/2']
             f = np.array([float(Fr(t)) for t in vals], dtype=dt)
+        warned = None
         try:
-            with warnings.catch_warnings():
-                warnings.simplefilter('ignore')
+            with warnings.catch_warnings(record=True) as wl:
+                warnings.simplefilter('always')
                 r = du.nearest_interpolator(f, [np.array([float(x) for x in c])])(
                     np.array([float(p) for p in pts]))
+            warned = any('Unable to infer accurate dtype' in str(w.message) for w in wl)
             toks = [value_token(z, dt if not dt == 'object' else 'U9') for z in np.asarray(r).tolist()]
             status = 'ok'
         except Exception as e:  # noqa
@@ -970,13 +970,15 @@ def run_dtype_table(ctx, with_model=True):
             ctx.violation('nearest_interpolator value dtype={} class={} float points :: closest-node rule'.format(dt, vk),
                           'expected {} got {}'.format(exp, status if status != 'ok' else toks), case)
         lines.append('cast vk={}'.format(vk))
-        batch.append((case, status, can))
+        batch.append((case, status, can, warned))
     if not with_model:
         return
     outs = core.run_driver('C15', lines)
-    for (case, status, can), ans in zip(batch, outs):
-        # model answer: `ok safe=0|1 outcome=ok|err:type`
-        impl = 'ok safe={} outcome={}'.format(int(can), 'ok' if status == 'ok' else 'err:type')
+    for (case, status, can, warned), ans in zip(batch, outs):
+        # model answer: `ok safe=0|1 cast=0|1 outcome=ok|err:type`; the code falls back to float
+        # (and warns) exactly when the points do not take the value dtype
+        impl = 'ok safe={} cast={} outcome={}'.format(
+            int(can), '?' if warned is None else int(not warned), 'ok' if status == 'ok' else 'err:type')
         if ans != impl:
             ctx.disagree(case, impl + ' (' + status[:80] + ')', ans)
 
@@ -1427,7 +1429,7 @@ def run_sampling(ctx):
 
 MODEL_BRANCHES = ['axis/{}/{}'.format(s_, b) for s_ in 'ln' for b in ('lo', 'hi', 'node', 'tie', 'in<', 'in>')] + \
     ['conv/{}/{}'.format(a, c) for a in ('nearest', 'linear', 'peraxis') for c in ('point', 'array', 'mesh')] + \
-    ['conv/resampling/mesh', 'conv/deform/array', 'mesh-input/rejected'] + \
+    ['conv/resampling/mesh', 'conv/deform/array', 'mesh/one-point-first-axis'] + \
     ['dtype/' + vk for vk in sorted(set(v for _, v in VKINDS))] + \
     ['dispatch/{}/{}'.format(k, o) for k in ('plain', 'optional', 'required') for o in ('out', 'noout')]
 
